@@ -291,6 +291,10 @@ struct Mon {
     rowed: [Option<usize>; 3],
     wowed: [Option<usize>; 3],
     eof_reported: bool,
+    /// the last inner write-side call was a `flush()` that returned Pending (the flush future is parked there)
+    flush_parked: bool,
+    /// bytes were accepted by poll_write while `flush_parked` and have not reached the inner stream yet
+    stale_bytes: bool,
 }
 
 struct World {
@@ -327,6 +331,8 @@ fn new_world() -> World {
             rowed: [None; 3],
             wowed: [None; 3],
             eof_reported: false,
+            flush_parked: false,
+            stale_bytes: false,
         },
         wakers: (0..4).map(|i| Waker::from(Arc::new(TaskWaker(i)))).collect(),
         is_async: false,
@@ -379,6 +385,8 @@ impl World {
         self.sh.borrow_mut().revent = false;
         self.sh.borrow_mut().wevent = false;
         drain_wakes();
+        let acc_before = self.mon.accepted.len();
+        let stale_before = self.mon.stale_bytes;
         let rowed_before = self.mon.rowed;
         let wowed_before = self.mon.wowed;
         let res = match w[0] {
@@ -425,6 +433,19 @@ impl World {
             let s = self.sh.borrow();
             (s.revent, s.wevent, s.log.clone())
         };
+        // F15 bookkeeping (implementation only): is the flush future parked in the inner flush(),
+        // and were bytes accepted meanwhile
+        if self.is_async && half == 1 {
+            if self.mon.flush_parked && res.starts_with("ready ok ") && w[0] == "pw" && res != "ready ok 0" {
+                self.mon.stale_bytes = true;
+            }
+            if let Some(last) = log.last() {
+                self.mon.flush_parked = last == "fP";
+            }
+            if self.sh.borrow().sent.len() == self.mon.accepted.len() {
+                self.mon.stale_bytes = false;
+            }
+        }
         let mut out = format!("{res} io={} wk={}", list(&log), list(&woken));
         if let Sut::Sync(s) = &self.sut {
             match sync_state(s) {
@@ -438,12 +459,14 @@ impl World {
         self.pipe_monitor(line, ex);
         if log.iter().any(|l| l == "s") && !self.mon.wlost {
             let at = self.sh.borrow().sent_at_shutdown.unwrap_or(0);
-            if at != self.mon.accepted.len() {
+            // a shutdown completes before anything else is accepted in the same call
+            if at != acc_before {
                 ex.fail(
-                    "F15:asyncstream-stale-flush",
+                    if stale_before { "F15:asyncstream-stale-flush" } else { "C12:close-before-flush" },
                     format!(
-                        "after `{line}`: the inner stream was shut down when only {at} of {} accepted bytes had reached it",
-                        self.mon.accepted.len()
+                        "after `{line}`: the inner stream was shut down when only {at} of {} accepted bytes had reached it (bytes accepted while the flush future was parked in the inner flush(): {})",
+                        acc_before,
+                        stale_before
                     ),
                 );
             }
@@ -754,12 +777,15 @@ impl World {
                     let sh = self.sh.borrow();
                     if sh.sent != mon.accepted {
                         let what = if entry == 1 { "poll_flush" } else { "poll_close" };
+                        // the check runs before this call's bookkeeping: `stale_bytes` describes the state
+                        // in which the call was made
                         ex.fail(
-                            "F15:asyncstream-stale-flush",
+                            if mon.stale_bytes { "F15:asyncstream-stale-flush" } else { "C12:flush-incomplete" },
                             format!(
-                                "{what} returned Ready(Ok) but only {} of {} accepted bytes reached the inner stream",
+                                "{what} returned Ready(Ok) but only {} of {} accepted bytes reached the inner stream (bytes accepted while the flush future was parked in the inner flush(): {})",
                                 sh.sent.len(),
-                                mon.accepted.len()
+                                mon.accepted.len(),
+                                mon.stale_bytes
                             ),
                         );
                     }
@@ -1026,7 +1052,8 @@ fn gen_case(rng: &mut Rng, name: String, long: bool) -> Case {
                 0..=24 => format!("pr {t} {}", rng.pick(&sizes)),
                 25..=31 => format!("pru {t} {}", rng.pick(&sizes)),
                 32..=43 => format!("pfb {t}"),
-                44..=53 => format!("co {}", rng.pick(&[0usize, 1, 1, 2, 3, 5, 9])),
+                44..=47 => format!("co {}", rng.pick(&[0usize, 0, 1, 1, 1, 2, 9])),
+                48..=53 => format!("pr {t} {}", rng.pick(&sizes)),
                 54..=77 => format!("pw {t} {}", hex(&gen_payload(rng, &mut next))),
                 78..=91 => format!("pfl {t}"),
                 _ => format!("pcl {t}"),
@@ -1036,7 +1063,8 @@ fn gen_case(rng: &mut Rng, name: String, long: bool) -> Case {
                 0..=17 => format!("read {}", rng.pick(&sizes)),
                 18..=22 => format!("rbu {}", rng.pick(&sizes)),
                 23..=30 => "fillbuf".to_string(),
-                31..=38 => format!("consume {}", rng.pick(&[0usize, 1, 1, 2, 3, 5, 9])),
+                31..=34 => format!("consume {}", rng.pick(&[0usize, 0, 1, 1, 1, 2, 9])),
+                35..=38 => format!("read {}", rng.pick(&sizes)),
                 39..=56 => format!("fill {}", rng.pick(&[1usize, 2, 3, 9, 9, 9, 9])),
                 57..=76 => format!("write {}", hex(&gen_payload(rng, &mut next))),
                 77..=79 => "flush".to_string(),
@@ -1099,14 +1127,52 @@ fn gen_wellbehaved(rng: &mut Rng, name: String) -> Case {
     Case { name, lines }
 }
 
+/// write-half stress: inner writer that parks in write and in flush, short writes, errors; callers that
+/// write / flush / close from several tasks (reaches the retry, stale-future and close-ordering paths)
+fn gen_writer_stress(rng: &mut Rng, name: String) -> Case {
+    let base = *rng.pick(&[1usize, 3, 4, 16]);
+    let max = *rng.pick(&[1usize, 4, 64]);
+    let is_async = rng.chance(2, 3);
+    let mut items = vec![];
+    for _ in 0..rng.range(2, 12) {
+        items.push(match rng.below(10) {
+            0..=3 => "p".to_string(),
+            4..=7 => format!("w{}", rng.pick(&[1usize, 2, 3, 100, 100])),
+            8 => "e".to_string(),
+            _ => "w0".to_string(),
+        });
+    }
+    let mut lines = vec![format!("{} {base} {max} . {}", if is_async { "async" } else { "sync" }, items.join(","))];
+    let mut next = 0u8;
+    for _ in 0..rng.range(6, 24) {
+        let t = rng.below(3);
+        let r = rng.below(10);
+        lines.push(if is_async {
+            match r {
+                0..=4 => format!("pw {t} {}", hex(&gen_payload(rng, &mut next))),
+                5..=7 => format!("pfl {t}"),
+                _ => format!("pcl {t}"),
+            }
+        } else {
+            match r {
+                0..=4 => format!("write {}", hex(&gen_payload(rng, &mut next))),
+                5..=8 => format!("wflush {}", rng.pick(&[1usize, 2, 9, 9, 9])),
+                _ => "st".to_string(),
+            }
+        });
+    }
+    Case { name, lines }
+}
+
 fn generate(tier: &str, rng: &mut Rng) -> Vec<Case> {
     let thorough = tier == "thorough";
     let n = if thorough { 60_000 } else { 4_000 };
     let mut cases = vec![];
     for i in 0..n {
         let c = match rng.below(10) {
-            0..=5 => gen_case(rng, format!("g{i}"), false),
-            6..=7 => gen_case(rng, format!("l{i}"), true),
+            0..=4 => gen_case(rng, format!("g{i}"), false),
+            5..=6 => gen_case(rng, format!("l{i}"), true),
+            7 => gen_writer_stress(rng, format!("s{i}")),
             _ => gen_wellbehaved(rng, format!("w{i}")),
         };
         cases.push(c);
